@@ -32,22 +32,34 @@ type idleCfg struct {
 	epochs     int
 	mutate     bool
 	maxStep    int // ProcessSlots advances 1..maxStep slots per event
+	// queues > 0: instead of the random registry edits, `queues` validators wait for activation (eligible at
+	// the finalized epoch 0) and queues+3 validators sit at the ejection balance: in the very first epoch
+	// transition both the activation queue and the ejections exceed the churn limit (and, in deneb, the
+	// churn limit exceeds the EIP-7514 activation cap)
+	queues int
 }
 
 func idleScenarios(tier string, seed int64) []scenario {
 	F := chain.Forks
 	X := chain.FarFuture
 	cfgs := []idleCfg{
-		{chain.PresetS1, chain.Phase0Only, 16, 12, true, 3},
-		{chain.PresetS2, chain.Phase0Only, 16, 14, true, 9},
-		{chain.PresetS2, F(2, 4, 6, 8), 16, 14, true, 5},
-		{chain.PresetS3, chain.Phase0Only, 32, 10, true, 5},
-		{chain.PresetS3, F(1, 1, 2, 3), 32, 12, true, 4},
-		{chain.PresetS4, F(1, 2, 3, 4), 8, 20, true, 5},
-		{chain.PresetS1, chain.AllAt(3), 16, 12, true, 6},
-		{chain.PresetS1, F(2, 3, X, X), 16, 12, true, 1},
-		{chain.PresetS4, F(3, 5, 5, 8), 8, 24, false, 7},
-		{chain.PresetS2, F(1, 2, 2, 5), 24, 14, true, 4},
+		{chain.PresetS1, chain.Phase0Only, 16, 12, true, 3, 0},
+		{chain.PresetS2, chain.Phase0Only, 16, 14, true, 9, 0},
+		{chain.PresetS2, F(2, 4, 6, 8), 16, 14, true, 5, 0},
+		{chain.PresetS3, chain.Phase0Only, 32, 10, true, 5, 0},
+		{chain.PresetS3, F(1, 1, 2, 3), 32, 12, true, 4, 0},
+		{chain.PresetS4, F(1, 2, 3, 4), 8, 20, true, 5, 0},
+		{chain.PresetS1, chain.AllAt(3), 16, 12, true, 6, 0},
+		{chain.PresetS1, F(2, 3, X, X), 16, 12, true, 1, 0},
+		{chain.PresetS4, F(3, 5, 5, 8), 8, 24, false, 7, 0},
+		{chain.PresetS2, F(1, 2, 2, 5), 24, 14, true, 4, 0},
+		// queue-vs-churn classes in the first epoch transition of every fork (S3: churn 32/4 vs cap 3)
+		{chain.PresetS3, chain.Phase0Only, 32, 4, false, 2, 7},
+		{chain.PresetS3, F(0, X, X, X), 32, 4, false, 2, 7},
+		{chain.PresetS3, F(0, 0, X, X), 32, 4, false, 3, 7},
+		{chain.PresetS3, F(0, 0, 0, X), 32, 4, false, 2, 7},
+		{chain.PresetS3, F(0, 0, 0, 0), 32, 5, false, 1, 7},
+		{chain.PresetS3, F(0, 0, 0, 1), 40, 5, false, 2, 9},
 	}
 	if tier == "thorough" {
 		base := cfgs
@@ -60,7 +72,7 @@ func idleScenarios(tier string, seed int64) []scenario {
 					if (rep+i+j)%3 == 0 {
 						n += 8
 					}
-					cfgs = append(cfgs, idleCfg{p, s, n, 10 + (rep+j)%8, (rep+j)%4 != 0, 1 + (rep*7+i+j)%9})
+					cfgs = append(cfgs, idleCfg{p, s, n, 10 + (rep+j)%8, (rep+j)%4 != 0, 1 + (rep*7+i+j)%9, 0})
 				}
 			}
 		}
@@ -90,6 +102,11 @@ func runIdle(rec *beaconrec.Recorder, cfg idleCfg, name string, rng *rand.Rand) 
 	}
 	if cfg.mutate {
 		if err := mutateRegistry(c, rng); err != nil {
+			return err
+		}
+	}
+	if cfg.queues > 0 {
+		if err := queueRegistry(c, cfg.queues); err != nil {
 			return err
 		}
 	}
@@ -220,3 +237,48 @@ func mutateRegistry(c *chain.Chain, rng *rand.Rand) error {
 }
 
 var _ = context.Background
+
+// queueRegistry prepares the queue-vs-churn situation described at idleCfg.queues.
+func queueRegistry(c *chain.Chain, k int) error {
+	spec := c.Spec
+	vals, err := c.State.Validators()
+	if err != nil {
+		return err
+	}
+	bals, err := c.State.Balances()
+	if err != nil {
+		return err
+	}
+	n := int(c.ValidatorCount())
+	for j := 0; j < k; j++ { // waiting for activation, eligibility finalized
+		v, err := vals.Validator(common.ValidatorIndex(n - 1 - j))
+		if err != nil {
+			return err
+		}
+		if err := v.SetActivationEpoch(common.FAR_FUTURE_EPOCH); err != nil {
+			return err
+		}
+		if err := v.SetActivationEligibilityEpoch(0); err != nil {
+			return err
+		}
+	}
+	for j := 0; j < k+3; j++ { // at the ejection balance
+		i := common.ValidatorIndex(2 * j)
+		v, err := vals.Validator(i)
+		if err != nil {
+			return err
+		}
+		if err := v.SetEffectiveBalance(spec.EJECTION_BALANCE); err != nil {
+			return err
+		}
+		if err := bals.SetBalance(i, spec.EJECTION_BALANCE); err != nil {
+			return err
+		}
+	}
+	epc, err := common.NewEpochsContext(spec, c.State.BeaconState)
+	if err != nil {
+		return err
+	}
+	c.Epc = epc
+	return nil
+}
